@@ -103,6 +103,10 @@ def oracle_sock(case, impl):
 PROPS = {
     "C05": dict(
         lean_module="NV.Props.C05",
+        level_text="Kernel-checked theorems for every (advertised size, response length) pair: reply length <= max(512, advertised), "
+                   "a cut always sets TC, a fitting answer keeps its length, TCP prefix exact; the truncation block and constants are "
+                   "re-translated from proxy/udp.go on every run and proved equal to the model; real sockets are driven on boundary grids.",
+        level_note="Trusted: Lean kernel; translator for the truncation block; loopback sockets. TC-without-cut above 4094 bytes is a recorded finding (C01).",
         areas=[dict(name="sock", n_quick=4000, n_thorough=60000, shards_thorough=8, oracle=oracle_sock,
                     nontrivial=lambda c, i: len(i) > 8)],
         trusted=COMMON_TRUST + ["kernel UDP/TCP loopback delivery", "translator /verif/extract (constants, truncation block)"],
@@ -110,6 +114,11 @@ PROPS = {
     ),
     "C02": dict(
         lean_module="NV.Props.C02",
+        level_text="Termination of query.parse and of every dnsmessage loop it reaches is proved for all byte strings (fuel bound / "
+                   "Lean termination checker); the handler model always emits a reply; the model is tied to the real parser by a "
+                   "differential run over structured and malformed messages with a per-input deadline (hang/panic oracle).",
+        level_note="Trusted: Lean kernel; the correspondence harness and generator. Slice-bounds panics inside dnsmessage are excluded by the "
+                   "differential run (PANIC output), not by a theorem; goroutine scheduling is observed, not modelled.",
         areas=[dict(name="parse", n_quick=20000, n_thorough=400000, shards_thorough=8,
                     oracle=oracle_parse_total,
                     nontrivial=lambda c, i: not i.startswith("query "))],
@@ -117,3 +126,5 @@ PROPS = {
         assumptions=["socket layer and goroutine scheduling are not modelled; liveness of the daemon after hostile input is observed through the C01 socket harness"],
     ),
 }
+
+NOT_CLAIMED = {}
